@@ -128,8 +128,9 @@ class ModuleInfo:
 
 
 class Program:
-    def __init__(self, root: Optional[str] = None):
+    def __init__(self, root: Optional[str] = None, override_trees: Optional[Dict[str, ast.Module]] = None):
         self.root = root or repo_root()
+        self._override_trees = override_trees or {}
         self.pkg_dir = os.path.join(self.root, PKG)
         if not os.path.isdir(self.pkg_dir):
             raise AnalysisError(f"package directory {self.pkg_dir} not found")
@@ -160,7 +161,7 @@ class Program:
                 try:
                     with open(path, encoding="utf-8") as fh:
                         src = fh.read()
-                    tree = ast.parse(src, filename=path)
+                    tree = self._override_trees.get(relpath) or ast.parse(src, filename=path)
                 except (SyntaxError, OSError, UnicodeDecodeError) as e:
                     raise AnalysisError(f"cannot parse {relpath}: {e}")
                 m = ModuleInfo(modname, path, relpath, tree, src, is_pkg)
